@@ -388,9 +388,16 @@ Fixpoint hscan (sp br : bool) (h : list N) : bool :=
       && hscan sp (if r =? 91 then true else if r =? 93 then false else br) h'
   end.
 
+(* the bracket flag after the scan *)
+Fixpoint hbr (br : bool) (h : list N) : bool :=
+  match h with
+  | [] => br
+  | r :: h' => hbr (if r =? 91 then true else if r =? 93 then false else br) h'
+  end.
+
 Definition host_shape (c : cfg) (u : url) : bool :=
   match u_host u with
-  | Some h => hscan (IsSpecialScheme c u) false h && negb (mem 64 h)
+  | Some h => hscan (IsSpecialScheme c u) false h && negb (hbr false h) && negb (mem 64 h)
   | None => true
   end.
 
